@@ -55,6 +55,19 @@ class C03(XsProp):
             srcs = [rng.choice(MUTATE) for _ in range(rng.randint(1, 4))]
             ev = ' | '.join('eval %s | stack | out' % hexsrc(x) for x in srcs)
             cs.append('xs limits 4000 - - | eval %s | clone | clone | use 1 | %s | dump | use 2 | %s | dump' % (hexsrc(pre), ev, ev))
+        # a snapshot taken while recording: the copy has the same undo history and rewinds exactly like the original
+        progs = ['0 var x : sq dup * ; 3 0 do I sq x + ! x loop x', '[ 10 20 30 ] foreach I loop 7', '1 2 over rot swap drop + 5 case 5 of 1 endof 2 endcase',
+                 ': f local a a 1 + local a a ; 4 f 0 begin 1 + dup 3 > until', '|ff 0f| open-bitstr 4 bits drop u4 close-bitstr "s" length']
+        for i in range(n // 4):
+            prog = rng.choice(progs)
+            k = rng.randint(1, 30)
+            j = rng.randint(1, k)
+            steps = ['xs limits 4001 - -', 'rec on', 'compile %s' % hexsrc(prog)] + ['next'] * k + ['dumplog', 'clone', 'use 1', 'dumplog'] + \
+                    ['rnext'] * j + ['dumplog'] + ['next'] * rng.randint(0, 3) + ['dumplog', 'use 0']
+            # the original repeats exactly what the copy did after the clone
+            tail = steps[steps.index('use 1') + 2:-1]
+            steps += tail
+            cs.append(' | '.join(steps))
         # handle pool
         for i in range(n):
             ops = []
@@ -173,6 +186,23 @@ class C03(XsProp):
             st = c.split(' | ')
             ou = o.split(' | ')
             if len(st) != len(ou):
+                continue
+            if c.startswith('xs limits 4001 '):
+                # snapshot under recording
+                n += 1
+                ic = st.index('clone')
+                i1 = st.index('use 1')
+                i0 = st.index('use 0')
+                before, after = ou[ic - 1], ou[i1 + 1]
+                if before != after:
+                    fails.append(('case: %s\noriginal-at-clone: %s\ncopy: %s' % (c, before[:1500], after[:1500]),
+                                  'a fresh clone differs from the state it was cloned from (full dump with the reverse log)'))
+                    continue
+                copy_run, orig_run = ou[i1 + 2:i0], ou[i0 + 1:]
+                if copy_run != orig_run:
+                    k = next(i for i, (x, y) in enumerate(zip(copy_run, orig_run)) if x != y)
+                    fails.append(('case: %s\nstep-after-clone: %d (%s)\ncopy: %s\noriginal: %s' % (c, k, st[i1 + 2 + k], copy_run[k][:1500], orig_run[k][:1500]),
+                                  'the clone and the original diverge when both are rewound / stepped the same way after the clone'))
                 continue
             if 'd2load' in c:
                 n += 1
